@@ -53,7 +53,6 @@ TReset ==
 TKeysEv ==
     /\ Ev("Keys")
     /\ TraceLog[l] = KeysEv            \* one key table per trace file: the constants above are the right ones
-    /\ H = 2 * HIGH                    \* HASH_SIZE as derived in the source
     /\ UNCHANGED <<slot, ng, nt, freeze, mru, val, ret>>
     /\ l' = l + 1
 
